@@ -211,6 +211,12 @@ pub fn analyze(url: &str, bytes: &[u8]) -> Option<serde_json::Value> {
   let spec = ModuleSpecifier::parse(url).ok()?;
   let mt = deno_graph::MediaType::from_specifier(&spec);
   use deno_graph::MediaType::*;
+  if mt == Wasm {
+    // a WebAssembly module is described by the declarations derived from it
+    let dts = deno_graph::source::wasm::wasm_module_to_dts(bytes).ok()?;
+    let info = deno_graph::ast::ParserModuleAnalyzer::default().analyze_sync(&spec, Arc::from(dts), Dmts).ok()?;
+    return serde_json::to_value(&info).ok();
+  }
   if !matches!(mt, JavaScript | Mjs | Cjs | Jsx | TypeScript | Mts | Cts | Dts | Dmts | Dcts | Tsx) {
     return None;
   }
@@ -759,10 +765,26 @@ pub fn gen_reg_world(rng: &mut Rng, cfg: &RegCfg) -> RegWorld {
       if rng.chance(1, 6) {
         paths.push("/impl.js".into());
       }
+      if rng.chance(1, 5) {
+        paths.push("/calc.wasm".into());
+      }
       for path in &paths {
         let mut items = vec![];
         if path.ends_with(".json") {
           files.push(RegFile { path: path.clone(), items, raw: Some(b"{\"k\": 1}".to_vec()), manifest: ManifestEntry::Ok, fault: Fault::None, tampered_cache: false });
+          continue;
+        }
+        if path.ends_with(".wasm") {
+          // a WebAssembly module importing another file of the package
+          let imports: Vec<String> = if paths.iter().any(|p| p == "/util.ts") && rng.chance(1, 2) { vec!["./util.ts".to_string()] } else { vec![] };
+          files.push(RegFile {
+            path: path.clone(),
+            items: imports.iter().map(|t| Item { form: Form::SideEffect, text: t.clone() }).collect(),
+            raw: Some(crate::world::wasm_bytes(&imports)),
+            manifest: ManifestEntry::Ok,
+            fault: Fault::None,
+            tampered_cache: false,
+          });
           continue;
         }
         let typed = crate::world::is_typed_ext(ext_of_path(path));
